@@ -187,6 +187,9 @@ def main(argv=None):
             "transaction's uncommitted file tmp/BUC* behind (tmp/ is outside the committed area)",
             'informational, outside the quantifier: BlobStorage.undo over an undo-capable base storage leaves '
             'a stray <oid>/<undo-tid>.blob for an un-creation record',
+            'excluded, not generated (observation): DB.undoMultiple of a rewrite AND of the creation of the same blob '
+            'in one transaction leaves <oid>/<undo tid>.blob although the object\'s last record in that transaction is an '
+            'un-creation (a superseded duplicate blob record of that (oid, tid) exists in the transaction)',
             'observation, record-only (out of contract: the 2PC finish callback must not fail; not a failure kind of '
             'C13): a raising callback in FileStorage.tpc_finish leaves the uncommitted transaction\'s blob file '
             'because the following tpc_abort is ignored; corpus/C13/observation_finish_callback_blob.py',
